@@ -140,6 +140,13 @@ fn push_to_call_stack(state: &mut HashMap<String, StateValue>, call_info: &CallI
     call_stack.push(StateValue::SubState(sub_state));
 }
 
+pub(crate) fn get_call_stack_depth(state: &mut HashMap<String, StateValue>) -> usize {
+    let fn_state = get_core_sub_state_for_command(state, FUNCTION_STATE_KEY.to_string());
+    let call_stack = get_list(CALL_STACK_STATE_KEY.to_string(), fn_state);
+
+    call_stack.len()
+}
+
 fn pop_from_call_stack(state: &mut HashMap<String, StateValue>) -> Option<CallInfo> {
     let fn_state = get_core_sub_state_for_command(state, FUNCTION_STATE_KEY.to_string());
     let call_stack = get_list(CALL_STACK_STATE_KEY.to_string(), fn_state);
